@@ -52,6 +52,7 @@ static void cmd(char **tok,int nt){
   else if(!strcmp(c,"ctag")&&nt>=3&&src_on){ long n1,n2; unsigned char *t=parse_runs(tok[1],&n1),*v=parse_runs(tok[2],&n2); vorbis_comment_add_tag(&src,(char*)t,(char*)v);
     ev_begin("CTag"); ev_runs("t",t,strlen((char*)t)); ev_runs("v",v,strlen((char*)v)); ev_i("n",src.comments); ev_end(); free(t); free(v); }
   else if(!strcmp(c,"craw")&&nt>=2&&src_on){ long n; unsigned char *b=parse_runs(tok[1],&n);
+    if(n==0){ free(b); b=(unsigned char*)strdup("\x7f\x7f\x7f\x7f");   /* (no '=' in it: a query, which relies on termination, cannot mistake it for a tag) */ }      /* an explicit length of 0 on a pointer that does not sit on a zero byte */
     src.user_comments=realloc(src.user_comments,(src.comments+2)*sizeof(char*)); src.comment_lengths=realloc(src.comment_lengths,(src.comments+2)*sizeof(int));
     src.user_comments[src.comments]=(char*)b; src.comment_lengths[src.comments]=(int)n; src.comments++; src.user_comments[src.comments]=NULL;
     ev_begin("CRaw"); ev_runs("s",b,n); ev_i("n",src.comments); ev_end(); }
